@@ -17,12 +17,24 @@ PROVED (for ALL parameters — any number of nodes, weights, honest sets — and
   in period `p+1`, none has voted there, and all hold the SAME cache of period `p` (a common starting value) — which is exactly
   the hypothesis of `sync_period_progress_partial` for period `p+1`.
 * `sync_two_periods` — the composition: at most one more period when its leader is good.
+* `sync_fresh_wf`, `sync_advance_wf` — the synchronous runs only append events the local rules of C01 allow (so every safety
+  theorem of `Props.C01` applies to them, and the lemmas compose over many periods); `sync_fresh_value` — a good period commits
+  exactly the value everybody soft-voted.
+* `sync_lockstep_progress` — the K-period bound FOR THE LOCK-STEP ORDER: from any well-formed prefix with highest honest period
+  `p0`, if one of the periods `p0+1 … p0+B` has a good leader (and the others are "uniformly bad": no proposal reaches anybody,
+  or the payload is unavailable to everybody), every honest node has committed after the advance of `p0` and at most `B`
+  further periods — `K = B + 1`.  `sync_lockstep_wf`: the whole run stays well-formed.
 
-NOT PROVED, kept visible: `sync_progress_Statement` (bottom of the file) — a bound K for every bounded-delay order (not only
-the lock-step order of `phase`), K coming from the number of consecutive periods with a bad leader.  What is missing is named
-there.
+All of these are FULL theorems about the model (no `_partial` in the sense of a missing case); the name
+`sync_period_progress_partial` is kept from the design because the PROPERTY is only partially proved:
+
+NOT PROVED, kept visible: `sync_progress_Statement` (bottom of the file) — a bound K for EVERY fair bounded-delay order of
+single-node moves (not only the lock-step order of `phase`), with leaders that may show different proposals to different nodes,
+K coming from the number of consecutive periods with a bad leader (the probabilistic leader argument).  What is missing is
+named there.
 -/
 import AlgoVerif.Lemmas.AgreementSync
+import AlgoVerif.Lemmas.AgreementSyncWF
 namespace Props.C05
 open AlgoVerif.Spec.AgreementAbs AlgoVerif.Spec.AgreementSync AlgoVerif.Lemmas.AgreementSync
 
@@ -110,6 +122,114 @@ example : GoodPeriod good7 := fun c => by
   | mk b pr => cases b <;> cases pr <;> simp [softValue, good7]
 /-- the hypotheses matter: without an honest supermajority (`T = 4`: all four nodes needed, one is Byzantine) the same run commits nothing -/
 example : commits { P4 with T := 4 } (syncFresh { P4 with T := 4 } good7 0 []) = [] := by decide
+
+/-! ### many periods in lock-step (PROVED)
+
+The synchronous step function preserves the local rules (`WF`), so the two lemmas compose over any number of periods:
+`sync_fresh_wf`, `sync_advance_wf` (well-formedness of the runs), `sync_fresh_value` (the committed value is the soft-voted one),
+and `sync_lockstep_progress`: after the advance of period `p0`, at most `B` further periods are needed when among the periods
+`p0+1 … p0+B` one has a good leader — `K = B + 1` periods in the lock-step order of `phase`.
+
+Side conditions of `sync_advance_wf` (both are about the asynchronous prefix only; they hold trivially for a period that starts
+inside the synchronous phase):
+* `CertAvail P E h p` — an honest cert-voter of period `p` holds the payload of the value it cert-voted (as in the code: a cert
+  vote is issued for a *committable* value).  Without it the rule `next-own-cert` can fail.
+* `StepLt P h p 249` — the honest next votes of period `p` in the prefix are at ordinary next steps `< 249`.  `Spec.AgreementAbs`
+  does not distinguish the fast-recovery steps `next 250/251/252` from ordinary next steps, so a prefix may contain an honest
+  `next 250 ⊥`; a later `late v` of the same node at the same step would violate `vote-unique` (and `nextK` = 250 after a vote at
+  step 249 would collide with `late`). -/
+
+/-- period `p` from its common start: filter timeout, cert votes, commit — and, if it did not commit, deadline + recovery -/
+def syncPeriod (P : Params) (E : Env) (p : Nat) (h : List Ev) : List Ev := syncAdvance P E p (syncFresh P E p h)
+
+/-- `k` periods `p, p+1, …, p+k-1` in lock-step, period `q` with the environment `E q` -/
+def syncPeriods (P : Params) (E : Nat → Env) : Nat → Nat → List Ev → List Ev
+  | _, 0, h => h
+  | p, k + 1, h => syncPeriods P E (p + 1) k (syncPeriod P (E p) p h)
+
+/-- **sync_fresh_wf.**  `syncFresh` (any environment, any history) only appends events the local rules allow. -/
+theorem sync_fresh_wf {l : Bool} {P : Params} (hnd : P.nodes.Nodup) (E : Env) (p : Nat) {h : List Ev}
+    (wf : WF l P h) : WF l P (syncFresh P E p h) := syncFresh_wf hnd E p wf
+
+/-- **sync_fresh_value.**  The value committed by a good period is the value everybody soft-voted. -/
+theorem sync_fresh_value {P : Params} {E : Env} {h : List Ev} {p : Nat} {c : Cache} {w : Val}
+    (hq : HQ P) (hnd : P.nodes.Nodup) (wf : WF true P h)
+    (hT : HonestQuorum P) (hf : FreshAt P h p) (hc : CommonStart P h p c)
+    (hw : softValue E c = some w) (ha : E.avail w = true) :
+    ∀ n ∈ hon P, Ev.commit n p w ∈ syncFresh P E p h := syncFresh_value hq hnd wf hT hf hc hw ha
+
+/-- **sync_advance_wf.**  `syncAdvance` only appends events the local rules allow. -/
+theorem sync_advance_wf {P : Params} {E : Env} {h : List Ev} {p : Nat}
+    (hq : HQ P) (hnd : P.nodes.Nodup) (wf : WF true P h) (hav : CertAvail P E h p) (hst : StepLt P h p 249) :
+    WF true P (syncAdvance P E p h) := syncAdvance_wf hq hnd wf hav hst
+
+theorem syncPeriod_suffix (P : Params) (E : Env) (p : Nat) (h : List Ev) : h <:+ syncPeriod P E p h :=
+  (syncFresh_suffix P E p h).trans (syncAdvance_suffix P E p _)
+
+theorem syncPeriods_suffix (P : Params) (E : Nat → Env) : ∀ k p h, h <:+ syncPeriods P E p k h := by
+  intro k
+  induction k with
+  | zero => intro p h; exact List.suffix_refl _
+  | succ k ih => intro p h; exact (syncPeriod_suffix P (E p) p h).trans (ih (p + 1) _)
+
+theorem sync_lockstep_aux {P : Params} {E : Nat → Env} (hq : HQ P) (hT : HonestQuorum P) (hnd : P.nodes.Nodup) :
+    ∀ (B q : Nat) (h : List Ev), AllCommitted P h ∨ PeriodStart P h q →
+      (∃ j, j < B ∧ GoodPeriod (E (q + j))) → AllCommitted P (syncPeriods P E q B h) := by
+  intro B
+  induction B with
+  | zero => rintro q h _ ⟨j, hj, _⟩; omega
+  | succ B ih =>
+      rintro q h hst ⟨j, hj, hg⟩
+      show AllCommitted P (syncPeriods P E (q + 1) B (syncPeriod P (E q) q h))
+      rcases hst with hc | hs
+      · exact hc.mono ((syncPeriod_suffix P (E q) q h).trans (syncPeriods_suffix P E B (q + 1) _))
+      · cases j with
+        | zero => exact (period_step_good hT hs hg).mono (syncPeriods_suffix P E B (q + 1) _)
+        | succ j =>
+            refine ih (q + 1) _ (period_step hq hT hnd hs (E q)) ⟨j, by omega, ?_⟩
+            have e : q + 1 + j = q + (j + 1) := by omega
+            rw [e]; exact hg
+
+/-- **sync_lockstep_progress.**  From any well-formed asynchronous prefix whose highest honest period is `p0`: the advance of
+`p0` followed by the periods `p0+1 … p0+B`, one of which has a good leader, makes every honest node commit — `K = B + 1`
+periods after `p0` in the lock-step order. -/
+theorem sync_lockstep_progress {P : Params} {E : Nat → Env} {h : List Ev} {p0 B : Nat}
+    (hq : HQ P) (hT : HonestQuorum P) (hnd : P.nodes.Nodup) (wf : WF true P h)
+    (hle : ∀ n ∈ hon P, (localOf h n).period ≤ p0) (htop : ∃ n ∈ hon P, (localOf h n).period = p0)
+    (hopen : ∀ n ∈ hon P, committedB h n = false)
+    (hav : CertAvail P (E p0) h p0) (hst : StepLt P h p0 249)
+    (hg : ∃ j, j < B ∧ GoodPeriod (E (p0 + 1 + j))) :
+    ∀ n ∈ hon P, committedB (syncPeriods P E (p0 + 1) B (syncAdvance P (E p0) p0 h)) n = true :=
+  sync_lockstep_aux hq hT hnd B (p0 + 1) _ (advance_start hq hT hnd wf hle htop hopen hav hst) hg
+
+/-- the run stays a history the safety model accepts -/
+theorem sync_lockstep_wf {P : Params} {E : Nat → Env} (hq : HQ P) (hT : HonestQuorum P) (hnd : P.nodes.Nodup) :
+    ∀ (B q : Nat) (h : List Ev), PeriodStart P h q →
+      AllCommitted P (syncPeriods P E q B h) ∨ PeriodStart P (syncPeriods P E q B h) (q + B) := by
+  intro B
+  induction B with
+  | zero => intro q h hs; exact Or.inr hs
+  | succ B ih =>
+      intro q h hs
+      show AllCommitted P (syncPeriods P E (q + 1) B (syncPeriod P (E q) q h)) ∨
+        PeriodStart P (syncPeriods P E (q + 1) B (syncPeriod P (E q) q h)) (q + (B + 1))
+      rcases period_step hq hT hnd hs (E q) with hc | hs'
+      · exact Or.inl (hc.mono (syncPeriods_suffix P E B (q + 1) _))
+      · have e : q + (B + 1) = q + 1 + B := by omega
+        rw [e]; exact ih (q + 1) _ hs'
+
+/-- non-vacuity: the prefix `pre1`, no payload in period 0, no proposal in period 1 (bad leader), a good leader in period 2 -/
+def envs : Nat → Env := fun p => if p = 2 then good7 else nopayload
+
+example : CertAvail P4 (envs 0) pre1 0 ∧ StepLt P4 pre1 0 249 ∧ (∃ n ∈ hon P4, (localOf pre1 n).period = 0) := by decide
+example : GoodPeriod (envs (0 + 1 + 1)) := fun c => by
+  cases c with
+  | mk b pr => cases b <;> cases pr <;> simp [softValue, envs, good7]
+example : ¬ AllCommitted P4 (syncPeriods P4 envs 1 1 (syncAdvance P4 (envs 0) 0 pre1)) := by decide
+set_option maxRecDepth 8000 in
+example : AllCommitted P4 (syncPeriods P4 envs 1 2 (syncAdvance P4 (envs 0) 0 pre1)) := by decide
+set_option maxRecDepth 8000 in
+example : commits P4 (syncPeriods P4 envs 1 2 (syncAdvance P4 (envs 0) 0 pre1)) = [(2, 2, 7), (1, 2, 7), (0, 2, 7)] := by decide
 
 /-! ### the full statement (NOT proved)
 
